@@ -151,7 +151,11 @@ PlanAlpha == { Mov("out", <<>>), Mov("outE", <<>>), Mov("in", <<>>), Mov("inE", 
                FieldsS(<<"x">>, <<>>), FieldsS(<<>>, <<>>), UnwindS(RL), DistS(<<RMGid>>, {"m"}), DistS(<<RX>>, {}),
                St("path"), St("count"), LimS(1) }
 
+\* long walks: moves only, then path/select - exercises traveler copying (path, marks) under fan-out
+PathAlpha == { Mov("out", <<>>), Mov("in", <<>>), Mov("both", <<>>), Mov("outE", <<>>), AsS("m"), St("path"), SelS(<<"m">>), St("count") }
+
 Alphabet == IF Alpha = "plan" THEN PlanAlpha
+            ELSE IF Alpha = "path" THEN PathAlpha
             ELSE Moves \cup Filters \cup Marks \cup Projs \cup Truncs
                  \cup (IF Alpha = "wide" THEN MovesW \cup FiltersW \cup MarksW \cup ProjsW \cup TruncsW \cup Spellings ELSE {})
 
